@@ -45,7 +45,7 @@ impl StateValidityChecker<OxmplRealVectorState> for PyStateValidityChecker {
             match result {
                 Ok(is_valid) => is_valid,
                 Err(e) => {
-                    e.print(py);
+                    e.display(py);
                     false
                 }
             }
@@ -65,7 +65,7 @@ impl StateValidityChecker<OxmplSO2State> for PyStateValidityChecker {
             match result {
                 Ok(is_valid) => is_valid,
                 Err(e) => {
-                    e.print(py);
+                    e.display(py);
                     false
                 }
             }
@@ -85,7 +85,7 @@ impl StateValidityChecker<OxmplSO3State> for PyStateValidityChecker {
             match result {
                 Ok(is_valid) => is_valid,
                 Err(e) => {
-                    e.print(py);
+                    e.display(py);
                     false
                 }
             }
@@ -105,7 +105,7 @@ impl StateValidityChecker<OxmplCompoundState> for PyStateValidityChecker {
             match result {
                 Ok(is_valid) => is_valid,
                 Err(e) => {
-                    e.print(py);
+                    e.display(py);
                     false
                 }
             }
@@ -125,7 +125,7 @@ impl StateValidityChecker<OxmplSE2State> for PyStateValidityChecker {
             match result {
                 Ok(is_valid) => is_valid,
                 Err(e) => {
-                    e.print(py);
+                    e.display(py);
                     false
                 }
             }
@@ -145,7 +145,7 @@ impl StateValidityChecker<OxmplSE3State> for PyStateValidityChecker {
             match result {
                 Ok(is_valid) => is_valid,
                 Err(e) => {
-                    e.print(py);
+                    e.display(py);
                     false
                 }
             }
